@@ -102,6 +102,9 @@ def run(ctx):
     ctx.rule += ("; concurrent stage: 12 goroutines x 250 simultaneous rounds (thorough 16 x 1500) of pin/unpin/status on a "
                  "CID unique to each request, half with right and half with 15 kinds of wrong/absent credentials, under "
                  "the race detector")
+    ctx.rule += ("; configuration variants {plain, Tracing=true, restrictive CORS + extra headers, both} x {open, basic-auth}: "
+                 "quick runs every endpoint x method x {no, bad, good credentials} and every positional class under each "
+                 "variant, thorough repeats every case under Tracing=true and the whole credentials matrix under each variant")
     ctx.assumptions = [
         "the recorder behind the API stands for the cluster: 'performs no cluster operation' is observed as 'no RPC reached "
         "the recording Cluster/PeerMonitor/IPFSConnector services'",
@@ -266,7 +269,8 @@ def key_http(rec, broken, conforms):
         # the signature of a handler that answers 400 for an option and carries on
         return "C11:400-then-performed:%s" % route_name(req)
     if "AuthFirst" in broken:
-        return "C11:unauthenticated:%s:%s" % (route_name(req), req["cred"])
+        cfgv = req.get("tr", "plain")
+        return "C11:unauthenticated%s:%s:%s" % ("" if cfgv == "plain" else "[config=%s]" % cfgv, route_name(req), req["cred"])
     return "C11:%s:%s:%s" % (route_name(req), "+".join(broken), ",".join(bad) or "valid")
 
 
